@@ -379,6 +379,64 @@ theorem il_poll_answer_justified (sched : List Sched) (i v s : Nat) (o : Out)
     ∃ res, Ev.op i (.poll v s) (.got (pollKey s) res) ∈ (Sys.run sched).2 ∧ PollAns v res o :=
   (pinv_run sched).ret i v s o hret
 
+/-- **Every poll answer, linked to the trace before its `Get`** — under every schedule.  A returned
+poll handler performed its `Get` when the trace was `pre`, and
+* either the key was not there: it answers 404, and if an `init` had inserted that poll secret before,
+  then — before the `Get` — the LRU dropped the key or a delivering poll removed the flow;
+* or it found the record of a flow `a` (`ps = 2a+1`, user secret `2a`: the only user secret ever
+  inserted with `ps`) that an `init` on ticket `tid` inserted, and its answer is determined by the
+  service addressed and the LAST successful decision on that flow in `pre` (`AnswerFor`): another
+  service → 500; the ticket's own service: no decision yet → 202 "not ready"; an approval → that
+  discharge (or 500 if the delete before delivery finds the key gone: dropped, or taken by a racing
+  poll); an abort → that error (or 500 likewise). -/
+theorem il_poll_answer_linked (sched : List Sched) (i v ps : Nat) (o : Out)
+    (hret : Ev.returned i (.poll v ps) o ∈ (Sys.run sched).2) :
+    ∃ res pre, (Ev.op i (.poll v ps) (.got (pollKey ps) res) :: pre) <:+ (Sys.run sched).2 ∧
+      ((res = none ∧ o = .http 404 .notFound false ∧
+          ∀ a tid us, ps = 2 * a + 1 → InsertedT pre tid ps us →
+            Ev.evicted (pollKey ps) ∈ pre ∨ ∃ j act, Ev.op j act (.removed a) ∈ pre) ∨
+       (∃ sd a tid, res = some sd ∧ ps = 2 * a + 1 ∧ sd.ticket = .good tid ∧ InsertedT pre tid ps (2 * a) ∧
+          (∀ t u, InsertedT pre t ps u → u = 2 * a) ∧ AnswerFor v tid (lastDecisionT ps (2 * a) pre) o)) :=
+  poll_answer_cases sched i v ps o hret
+
+/-- **The positive clauses under every interleaving.**  For a completed poll whose `Get` happened at
+`pre`: if some `init` had inserted its poll secret by then and, by then, the key was neither dropped
+by the LRU nor the flow removed by a delivering poll ("before collection"), then the handler found
+the flow's record — inserted on some ticket `tid`, user secret `us` — and, AT THE TICKET'S OWN
+SERVICE: before any decision it answers 202 "not ready"; after an approval with `cs` (the last
+successful decision) it delivers the discharge for that ticket with exactly `cs`; after an abort it
+delivers that error — or, in the last two cases, 500 when the delete that precedes delivery finds the
+key gone (a racing poll collected first, or the LRU dropped it in between). -/
+theorem il_live_flow_answered (sched : List Sched) (i v ps : Nat) (o : Out)
+    (hret : Ev.returned i (.poll v ps) o ∈ (Sys.run sched).2) :
+    ∃ res pre, (Ev.op i (.poll v ps) (.got (pollKey ps) res) :: pre) <:+ (Sys.run sched).2 ∧
+      ((∃ t u, InsertedT pre t ps u) → Ev.evicted (pollKey ps) ∉ pre →
+        (∀ j act a, ps = 2 * a + 1 → Ev.op j act (.removed a) ∉ pre) →
+        ∃ tid us, InsertedT pre tid ps us ∧ (v = sealer tid →
+          (lastDecisionT ps us pre = none → o = .http 202 .notReady false) ∧
+          (∀ cs, lastDecisionT ps us pre = some (.approve cs) →
+            o = .http 200 (.discharge (mkDischarge tid cs)) false ∨ o = .http 500 .internal false) ∧
+          (∀ msg, lastDecisionT ps us pre = some (.abort msg) →
+            o = .http 200 (.error msg) false ∨ o = .http 500 .internal false))) := by
+  obtain ⟨res, pre, hs, hc⟩ := poll_answer_cases sched i v ps o hret
+  refine ⟨res, pre, hs, ?_⟩
+  rintro ⟨t, u, hins⟩ hne hnr
+  rcases hc with ⟨_, _, hgone⟩ | ⟨sd, a, tid, _, hps, _, hi, _, hans⟩
+  · exfalso
+    obtain ⟨a, hps, _⟩ : ∃ a, ps = 2 * a + 1 ∧ True := by
+      obtain ⟨a', _, h1, _⟩ := ((hinv_run sched).f.s.issued t ps u (by
+        obtain ⟨j, m, hm⟩ := hins
+        exact ⟨j, m, (List.suffix_cons _ _ |>.trans hs).subset hm⟩))
+      exact ⟨a', h1, trivial⟩
+    rcases hgone a t u hps hins with h | ⟨j, act, h⟩
+    · exact hne h
+    · exact hnr j act a hps h
+  · refine ⟨tid, 2 * a, hi, ?_⟩
+    intro hv
+    rcases hans with ⟨hne', _⟩ | ⟨_, hm⟩
+    · exact absurd hv hne'
+    · refine ⟨fun hd => by simpa [hd] using hm, fun cs hd => by simpa [hd] using hm, fun msg hd => by simpa [hd] using hm⟩
+
 /-- `PollAns`, spelled out -/
 theorem pollAns_iff (v : Nat) (res : Option Data) (o : Out) :
     PollAns v res o ↔
@@ -481,6 +539,17 @@ example : Ev.returned 2 (.poll 1 1) (.http 202 .notReady false) ∈
     (Sys.run [.spawn (.init 1 (.good 7) .poll), .step 0, .spawn (.approvePoll 1 1 [3]), .step 1,
       .spawn (.poll 1 1), .step 2, .step 1]).2 := by decide
 
+/-- hypotheses of `il_live_flow_answered` on the "not ready" schedule above: the flow was inserted and
+is neither evicted nor removed when the racing poll looks -/
+example : ∃ res pre, (Ev.op 2 (.poll 1 1) (.got (pollKey 1) res) :: pre) <:+
+    (Sys.run [.spawn (.init 1 (.good 7) .poll), .step 0, .spawn (.approvePoll 1 1 [3]), .step 1,
+      .spawn (.poll 1 1), .step 2, .step 1]).2 ∧ PollAns 1 res (.http 202 .notReady false) :=
+  by
+    obtain ⟨res, pre, h1, h2, _⟩ := poll_answer_linked
+      [.spawn (.init 1 (.good 7) .poll), .step 0, .spawn (.approvePoll 1 1 [3]), .step 1,
+        .spawn (.poll 1 1), .step 2, .step 1] 2 1 1 (.http 202 .notReady false) (by decide)
+    exact ⟨res, pre, h1, h2⟩
+
 end Macaroon.Props.C16
 
 #print axioms Macaroon.Props.C16.discharge_only_after_approval
@@ -515,3 +584,5 @@ end Macaroon.Props.C16
 #print axioms Macaroon.Props.C16.discharge_refines_model
 #print axioms Macaroon.Props.C16.il_poll_answer_justified
 #print axioms Macaroon.Props.C16.pollAns_iff
+#print axioms Macaroon.Props.C16.il_poll_answer_linked
+#print axioms Macaroon.Props.C16.il_live_flow_answered
